@@ -109,6 +109,16 @@ struct CheckAndRaise {
     template <class Ev, class Fsm, class S, class T> void operator()(Ev const& e, Fsm& f, S&, T&) {
         dispatched(e);
         if (e.value % 3 == 0) { EvC n(e.value + 1000); submitted(n); f.process_event(EvC(n)); }
+        // the event in flight must survive whatever its own action submits (a full circular queue overwrites its oldest slot)
+        if (!e.ok()) die("the event being dispatched was destroyed / corrupted by a submission made from its own action", e.tag(), e.value);
+    }
+};
+// second link of a chain of internally generated events: EvD -> EvC -> EvD
+struct CheckAndRaiseD {
+    template <class Ev, class Fsm, class S, class T> void operator()(Ev const& e, Fsm& f, S&, T&) {
+        dispatched(e);
+        if (e.value % 2 == 0) { EvD n(e.value + 1000); submitted(n); f.process_event(EvD(n)); }
+        if (!e.ok()) die("the event being dispatched was destroyed / corrupted by a submission made from its own action", e.tag(), e.value);
     }
 };
 struct St0 : state<> { typedef mpl::vector<EvB, EvC> deferred_events; };
@@ -153,7 +163,7 @@ struct Root_ : state_machine_def<Root_> {
         Row<St0, EvD, none, Check, none>,
         Row<St0, EvE, none, Check, none>,
         Row<St1, EvB, none, Check, none>,
-        Row<St1, EvC, none, Check, none>,
+        Row<St1, EvC, none, CheckAndRaiseD, none>,
         Row<St1, EvD, none, CheckAndRaise, none>,
         Row<St1, EvE, none, Check, none>,
         Row<Sub, EvC, none, Check, none>
@@ -190,10 +200,12 @@ struct Root : RootBase {
 };
 #endif
 
+static size_t g_cap = 128;   // circular queues: capacity chosen per input (a full buffer drops the oldest entry by design;
+                             // what is dispatched must still be an intact submitted event)
 static void setup(Root& r) {
 #if CFG == 3
-    r.get_message_queue().set_capacity(128); r.get_deferred_queue().set_capacity(128);
-    r.get_state<Sub&>().get_message_queue().set_capacity(128); r.get_state<Sub&>().get_deferred_queue().set_capacity(128);
+    r.get_message_queue().set_capacity(g_cap); r.get_deferred_queue().set_capacity(g_cap);
+    r.get_state<Sub&>().get_message_queue().set_capacity(g_cap); r.get_state<Sub&>().get_deferred_queue().set_capacity(g_cap);
 #else
     (void)r;
 #endif
@@ -215,6 +227,9 @@ extern "C" int LLVMFuzzerTestOneInput(const uint8_t* data, size_t size) {
     if (!g_live.empty()) die("event instances leaked from the previous iteration", -1, (long)g_live.size());
     g_submitted.clear();
     FuzzedDataProvider fdp(data, size);
+#if CFG == 3
+    { static const size_t caps[] = {128, 128, 1, 2, 3, 4}; g_cap = caps[fdp.ConsumeIntegralInRange<int>(0, 5)]; }
+#endif
     {
         std::vector<std::unique_ptr<Root>> ms;
         ms.emplace_back(new Root());
